@@ -86,7 +86,7 @@ func checkAddrCanon(w *World, r *Report, tm *Terms) {
 			}
 			continue
 		}
-		val := tm.OperandAt(fr, in, args[3])
+		val := expandBuiltElem(tm.OperandAt(fr, in, args[3])) // an entry of a list collected earlier in the operation
 		if base := stripUpd(val); fromColl(base, e.Coll) || (e.Coll == "Auction" && (storedAuction(base) || base.Op == "param")) {
 			continue // a loaded record (or the auction handed to a settlement step) written back
 		}
